@@ -739,7 +739,13 @@ def _is_find_jump(body, i):
 
 
 def _rewrite_find_jump(body, i, q, leave):
-    new = _parse(
+    pre = []
+    if isinstance(q, ast.Name) and q.id == 'char':
+        # the searched character is the one just read: it is overwritten by
+        # the character loop, so it is kept under the canonical name first
+        pre = _parse('first_char = char\n')
+        q = _parse('first_char')[0].value
+    new = pre + _parse(
         'while True:\n'
         '    if pos >= size:\n'
         '        pass\n'
@@ -747,7 +753,7 @@ def _rewrite_find_jump(body, i, q, leave):
         '    pos += 1\n'
         f'    if char == {unparse(q)}:\n'
         '        break\n')
-    new[0].body[0].body = [clone(x) for x in leave]
+    new[len(pre)].body[0].body = [clone(x) for x in leave]
     _copy_loc(new, body[i])
     body[i:i + 3] = new
 
